@@ -10,14 +10,18 @@ open Mx.Weekly
 
 /-- What a successful transaction does to the accounting cells:
     * `tot` is accrued — either nothing, or exactly `genTot s` (one `generate` under the
-      pre-state's configuration), of which `cut` goes to the boosted pool of the week;
+      pre-state's configuration), of which `cut` goes to the boosted pool of the week and the
+      rest raises the index by `inc = ⌊(tot − cut)·dsc/supply⌋` (nothing at zero supply); a
+      `generate` moves `lastBlock` to the current block;
     * `pb` / `pbo` base / boosted rewards are paid out of the reserve (or compounded);
     * the capacity moves by an admin top-up `up` or a withdrawal `down` that fits into the
       capacity not yet accrued AFTER settling;
     * the contract's balance moves with principal, unbond tokens, capacity and payouts. -/
 def Eff (s s' : St) : Prop :=
-  ∃ tot cut pb pbo up down : Nat,
-    ((tot = 0 ∧ cut = 0) ∨ (s.accumulated ≤ s.capacity ∧ tot = genTot s ∧ cut = genCut s tot)) ∧
+  ∃ tot cut inc pb pbo up down : Nat,
+    ((tot = 0 ∧ cut = 0 ∧ inc = 0 ∧ (s'.lastBlock = s.lastBlock ∨ s'.lastBlock = s.block)) ∨
+     (s.accumulated ≤ s.capacity ∧ tot = genTot s ∧ cut = genCut s tot ∧
+        inc = rpsInc s.dsc (tot - cut) s.supply ∧ s'.lastBlock = max s.lastBlock s.block)) ∧
     cut ≤ tot ∧
     s'.accumulated = s.accumulated + tot ∧
     s'.baseBudget = s.baseBudget + (tot - cut) ∧
@@ -30,7 +34,8 @@ def Eff (s s' : St) : Prop :=
     (s'.bal : Int) + s'.virt - s'.supply - s'.unbondOut
       = (s.bal : Int) + s.virt - s.supply - s.unbondOut + up - down - pb - pbo ∧
     (s.boostedPct ≤ MAX_PERCENT → s'.boostedPct ≤ MAX_PERCENT) ∧
-    s'.firstWeek = s.firstWeek ∧ s.epoch ≤ s'.epoch
+    s'.firstWeek = s.firstWeek ∧ s.epoch ≤ s'.epoch ∧
+    s'.rps = s.rps + inc ∧ s'.dsc = s.dsc ∧ s.block ≤ s'.block
 
 /-- closes the conjunction of `Eff` once the witnesses are given and the projections simplified -/
 macro "eff_close" : tactic => `(tactic|
@@ -43,23 +48,22 @@ macro "eff_close" : tactic => `(tactic|
     | exact Or.inl rfl
     | (refine Or.inr ⟨?_, ?_⟩ <;> first | trivial | omega)))
 
+/-- the simp set that exposes the accounting projections -/
+macro "eff_simp" " at " loc:Lean.Parser.Tactic.locationHyp : tactic => `(tactic|
+  simp (config := { maxSteps := 2000000 }) only [genSt_accumulated, genSt_baseBudget, genSt_boostedBudget, genSt_paidBase, genSt_paidBoosted,
+    genSt_capacity, genSt_bal, genSt_virt, genSt_unbondOut, genSt_boostedPct, genSt_firstWeek, genSt_epoch,
+    genSt_supply, genSt_reserve, genSt_dsc, genSt_block, genSt_rps, genCache_reserve, genCache_supply, genCache_rps,
+    St.cache, St.flush, genTot, genCut] at $loc)
+
 theorem claimBoostedRewards_eff {s s' : St} {c : Nat} {u : Option Nat} {o : Out}
     (h : claimBoostedRewards s c u = some (s', o)) : Eff s s' := by
   simp only [claimBoostedRewards, Option.bind_eq_bind, Option.bind_eq_some_iff, req_eq_some,
     sub?_eq_some, Option.pure_def, Option.some.injEq, Prod.mk.injEq] at h
   obtain ⟨_, _, _, _, _, _, ⟨s1, c1⟩, hg, r, _, res, ⟨hres, rfl⟩, bal1, ⟨hbal, rfl⟩, rfl, _⟩ := h
   obtain ⟨ha, hc, rfl, rfl⟩ := generate_spec hg
-  refine ⟨genTot s, genCut s (genTot s), 0, r.2.2, 0, 0, Or.inr ⟨ha, rfl, rfl⟩, hc, ?_⟩
-  simp only [genSt_accumulated, genSt_baseBudget, genSt_boostedBudget, genSt_paidBase, genSt_paidBoosted,
-    genSt_capacity, genSt_bal, genSt_virt, genSt_unbondOut, genSt_boostedPct, genSt_firstWeek, genSt_epoch,
-    genCache_reserve, genCache_supply, St.cache] at hres hbal ⊢
+  refine ⟨_, _, _, 0, r.2.2, 0, 0, Or.inr ⟨ha, rfl, rfl, rfl, rfl⟩, hc, ?_⟩
+  eff_simp at hres hbal ⊢
   eff_close
-
-/-- the simp set that exposes the accounting projections -/
-macro "eff_simp" " at " loc:Lean.Parser.Tactic.locationHyp : tactic => `(tactic|
-  simp (config := { maxSteps := 2000000 }) only [genSt_accumulated, genSt_baseBudget, genSt_boostedBudget, genSt_paidBase, genSt_paidBoosted,
-    genSt_capacity, genSt_bal, genSt_virt, genSt_unbondOut, genSt_boostedPct, genSt_firstWeek, genSt_epoch,
-    genSt_supply, genSt_reserve, genCache_reserve, genCache_supply, St.cache, St.flush, genTot, genCut] at $loc)
 
 theorem stakeCore_eff {s s' : St} {c orig amount : Nat} {v : Bool} {adds : List Pay} {o : Out}
     (h : stakeCore s c orig amount v adds = some (s', o)) : Eff s s' := by
@@ -69,11 +73,11 @@ theorem stakeCore_eff {s s' : St} {c orig amount : Nat} {v : Bool} {adds : List 
     obtain ⟨_, _, hold0, _, r, _, res1, ⟨hres, rfl⟩, _, _, ut1, _, ⟨s3, c3⟩, hg, merged, _, w2, _,
       bal1, ⟨hbal, rfl⟩, rfl, _⟩ := h
     obtain ⟨ha, hc, rfl, rfl⟩ := generate_spec hg
-    refine ⟨_, _, 0, r.2.2, 0, 0, Or.inr ⟨ha, rfl, rfl⟩, hc, ?_⟩
+    refine ⟨_, _, _, 0, r.2.2, 0, 0, Or.inr ⟨ha, rfl, rfl, rfl, rfl⟩, hc, ?_⟩
     simp only [genSt_accumulated, genSt_baseBudget, genSt_boostedBudget, genSt_paidBase, genSt_paidBoosted,
       genSt_capacity, genSt_bal, genSt_virt, genSt_unbondOut, genSt_boostedPct, genSt_firstWeek, genSt_epoch,
-      genSt_supply, genSt_reserve, genCache_reserve, genCache_supply, St.cache, St.flush, genTot, genCut,
-      Bool.false_eq_true, if_false, if_true] at hres hbal hc ⊢
+      genSt_supply, genSt_reserve, genSt_dsc, genSt_block, genSt_rps, genCache_reserve, genCache_supply, genCache_rps,
+      St.cache, St.flush, genTot, genCut, Bool.false_eq_true, if_false, if_true] at hres hbal hc ⊢
     eff_close
 
 
@@ -100,7 +104,7 @@ theorem claimCore_eff {s s' : St} {c orig : Nat} {pays : List Pay} {nv : Option 
     obtain ⟨res1, ⟨hres, rfl⟩, sup1, rfl, ut2, rfl, _, _, w2, _, bal1, ⟨hbal, rfl⟩, rfl, _⟩ := h
     rw [e1] at hbal ⊢
     rw [e2] at hres ⊢
-    refine ⟨_, _, m.base, m.boosted, 0, 0, Or.inr ⟨ha, rfl, rfl⟩, hc, ?_⟩
+    refine ⟨_, _, _, m.base, m.boosted, 0, 0, Or.inr ⟨ha, rfl, rfl, rfl, rfl⟩, hc, ?_⟩
     eff_simp at hres hbal hc ⊢
     eff_close
   | some x =>
@@ -111,7 +115,7 @@ theorem claimCore_eff {s s' : St} {c orig : Nat} {pays : List Pay} {nv : Option 
       bal1, ⟨hbal, rfl⟩, rfl, _⟩ := h
     rw [e1] at hbal ⊢
     rw [e2] at hres hsup ⊢
-    refine ⟨_, _, m.base, m.boosted, 0, 0, Or.inr ⟨ha, rfl, rfl⟩, hc, ?_⟩
+    refine ⟨_, _, _, m.base, m.boosted, 0, 0, Or.inr ⟨ha, rfl, rfl, rfl, rfl⟩, hc, ?_⟩
     eff_simp at hres hbal hc hsup ⊢
     eff_close
 
@@ -122,7 +126,7 @@ theorem compound_eff {s s' : St} {c : Nat} {pays : List Pay} {o : Out}
   obtain ⟨hold0, _, _, _, p, _, first, _, ⟨s1, c1⟩, hg, tok, _, r, _, res1, ⟨hres, rfl⟩, ut1, _,
     merged, _, rfl, _⟩ := h
   obtain ⟨ha, hc, rfl, rfl⟩ := generate_spec hg
-  refine ⟨_, _, baseReward (genCache s s.cache) s.dsc p.2 tok, r.2.2, 0, 0, Or.inr ⟨ha, rfl, rfl⟩, hc, ?_⟩
+  refine ⟨_, _, _, baseReward (genCache s s.cache) s.dsc p.2 tok, r.2.2, 0, 0, Or.inr ⟨ha, rfl, rfl, rfl, rfl⟩, hc, ?_⟩
   eff_simp at hres hc ⊢
   eff_close
 
@@ -134,7 +138,7 @@ theorem unstakeCore_eff {s s' : St} {c orig : Nat} {pay : Pay} {x : Option Nat} 
     obtain ⟨_, _, hold0, _, _, _, attrs, _, ⟨s1, c1⟩, hg, tok, _, r, _, res1, ⟨hres, rfl⟩,
       sup1, ⟨hsup, rfl⟩, w2, _, bal1, ⟨hbal, rfl⟩, rfl, _⟩ := h
     obtain ⟨ha, hc, rfl, rfl⟩ := generate_spec hg
-    refine ⟨_, _, baseReward (genCache s s.cache) s.dsc pay.2 tok, r.2.2, 0, 0, Or.inr ⟨ha, rfl, rfl⟩, hc, ?_⟩
+    refine ⟨_, _, _, baseReward (genCache s s.cache) s.dsc pay.2 tok, r.2.2, 0, 0, Or.inr ⟨ha, rfl, rfl, rfl, rfl⟩, hc, ?_⟩
     eff_simp at hres hbal hsup hc ⊢
     eff_close
 
@@ -143,7 +147,7 @@ theorem unbondFarm_eff {s s' : St} {c : Nat} {pay : Pay} {o : Out}
   simp only [unbondFarm, Option.bind_eq_bind, Option.bind_eq_some_iff, req_eq_some,
     sub?_eq_some, Option.pure_def, Option.some.injEq, Prod.mk.injEq] at h
   obtain ⟨hold0, _, _, _, unlock, _, _, _, bal1, ⟨hbal, rfl⟩, rfl, _⟩ := h
-  refine ⟨0, 0, 0, 0, 0, 0, Or.inl ⟨rfl, rfl⟩, Nat.le_refl _, ?_⟩
+  refine ⟨0, 0, 0, 0, 0, 0, 0, Or.inl ⟨rfl, rfl, rfl, Or.inl rfl⟩, Nat.le_refl _, ?_⟩
   eff_close
 
 theorem mergeTokens_eff {s s' : St} {c : Nat} {pays : List Pay} {o : Out}
@@ -152,7 +156,7 @@ theorem mergeTokens_eff {s s' : St} {c : Nat} {pays : List Pay} {o : Out}
     sub?_eq_some, Option.pure_def, Option.some.injEq, Prod.mk.injEq] at h
   obtain ⟨hold0, _, _, _, r, _, res1, ⟨hres, rfl⟩, p, _, ut1, _, first, _, part, _, merged, _,
     bal1, ⟨hbal, rfl⟩, rfl, _⟩ := h
-  refine ⟨0, 0, 0, r.2.2, 0, 0, Or.inl ⟨rfl, rfl⟩, Nat.le_refl _, ?_⟩
+  refine ⟨0, 0, 0, 0, r.2.2, 0, 0, Or.inl ⟨rfl, rfl, rfl, Or.inl rfl⟩, Nat.le_refl _, ?_⟩
   eff_close
 
 theorem calcRewards_eff {s s' : St} {q : Bool} {amt : Nat} {t : Attrs} {v : Nat}
@@ -161,7 +165,7 @@ theorem calcRewards_eff {s s' : St} {q : Bool} {amt : Nat} {t : Attrs} {v : Nat}
     Option.pure_def, Option.some.injEq, Prod.mk.injEq] at h
   obtain ⟨_, _, ⟨s1, c1⟩, hg, r, _, rfl, _⟩ := h
   obtain ⟨ha, hc, rfl, rfl⟩ := generate_spec hg
-  refine ⟨_, _, 0, 0, 0, 0, Or.inr ⟨ha, rfl, rfl⟩, hc, ?_⟩
+  refine ⟨_, _, _, 0, 0, 0, 0, Or.inr ⟨ha, rfl, rfl, rfl, rfl⟩, hc, ?_⟩
   eff_simp at hc ⊢
   eff_close
 
@@ -169,7 +173,7 @@ theorem topUp_eff {s s' : St} {x : Nat} {o : Out} (h : topUp s x = some (s', o))
   simp only [topUp, Option.bind_eq_bind, Option.bind_eq_some_iff, req_eq_some,
     Option.pure_def, Option.some.injEq, Prod.mk.injEq] at h
   obtain ⟨_, _, rfl, _⟩ := h
-  refine ⟨0, 0, 0, 0, x, 0, Or.inl ⟨rfl, rfl⟩, Nat.le_refl _, ?_⟩
+  refine ⟨0, 0, 0, 0, 0, x, 0, Or.inl ⟨rfl, rfl, rfl, Or.inl rfl⟩, Nat.le_refl _, ?_⟩
   eff_close
 
 theorem withdraw_eff {s s' : St} {x : Nat} {o : Out} (h : withdraw s x = some (s', o)) : Eff s s' := by
@@ -177,7 +181,7 @@ theorem withdraw_eff {s s' : St} {x : Nat} {o : Out} (h : withdraw s x = some (s
     sub?_eq_some, Option.pure_def, Option.some.injEq, Prod.mk.injEq] at h
   obtain ⟨⟨s1, c1⟩, hg, rem, ⟨hrem, rfl⟩, _, hx, cap, ⟨hcap, rfl⟩, bal1, ⟨hbal, rfl⟩, rfl, _⟩ := h
   obtain ⟨ha, hc, rfl, rfl⟩ := generate_spec hg
-  refine ⟨_, _, 0, 0, 0, x, Or.inr ⟨ha, rfl, rfl⟩, hc, ?_⟩
+  refine ⟨_, _, _, 0, 0, 0, x, Or.inr ⟨ha, rfl, rfl, rfl, rfl⟩, hc, ?_⟩
   eff_simp at hrem hx hcap hbal hc ⊢
   eff_close
 
@@ -186,17 +190,19 @@ theorem settleThen_eff {s s' : St} {f : St → St} {o : Out}
       (f t).boostedBudget = t.boostedBudget ∧ (f t).paidBase = t.paidBase ∧
       (f t).paidBoosted = t.paidBoosted ∧ (f t).reserve = t.reserve ∧ (f t).capacity = t.capacity ∧
       (f t).bal = t.bal ∧ (f t).virt = t.virt ∧ (f t).supply = t.supply ∧
-      (f t).unbondOut = t.unbondOut ∧ (f t).firstWeek = t.firstWeek ∧ (f t).epoch = t.epoch)
+      (f t).unbondOut = t.unbondOut ∧ (f t).firstWeek = t.firstWeek ∧ (f t).epoch = t.epoch ∧
+      (f t).rps = t.rps ∧ (f t).dsc = t.dsc ∧ (f t).block = t.block ∧ (f t).lastBlock = t.lastBlock)
     (hp : ∀ t, t.boostedPct ≤ MAX_PERCENT → (f t).boostedPct ≤ MAX_PERCENT)
     (h : settleThen s f = some (s', o)) : Eff s s' := by
   simp only [settleThen, Option.bind_eq_bind, Option.bind_eq_some_iff,
     Option.pure_def, Option.some.injEq, Prod.mk.injEq] at h
   obtain ⟨⟨s1, c1⟩, hg, rfl, _⟩ := h
   obtain ⟨ha, hc, rfl, rfl⟩ := generate_spec hg
-  obtain ⟨f1, f2, f3, f4, f5, f6, f7, f8, f9, f10, f11, f12, f13⟩ := hf ((genSt s).flush (genCache s s.cache))
+  obtain ⟨f1, f2, f3, f4, f5, f6, f7, f8, f9, f10, f11, f12, f13, f14, f15, f16, f17⟩ :=
+    hf ((genSt s).flush (genCache s s.cache))
   have hp' := hp ((genSt s).flush (genCache s s.cache))
-  refine ⟨_, _, 0, 0, 0, 0, Or.inr ⟨ha, rfl, rfl⟩, hc, ?_⟩
-  rw [f1, f2, f3, f4, f5, f6, f7, f8, f9, f10, f11, f12, f13]
+  refine ⟨_, _, _, 0, 0, 0, 0, Or.inr ⟨ha, rfl, rfl, rfl, f17⟩, hc, ?_⟩
+  rw [f1, f2, f3, f4, f5, f6, f7, f8, f9, f10, f11, f12, f13, f14, f15, f16]
   eff_simp at hc hp' ⊢
   and_intros <;> first | trivial | omega | exact hp' | exact Or.inl trivial
 
@@ -208,10 +214,11 @@ theorem Eff.of_frame {s s' : St}
       s'.paidBoosted = s.paidBoosted ∧ s'.reserve = s.reserve ∧ s'.capacity = s.capacity ∧
       s'.bal = s.bal ∧ s'.virt = s.virt ∧ s'.supply = s.supply ∧
       s'.unbondOut = s.unbondOut ∧ s'.boostedPct = s.boostedPct ∧ s'.firstWeek = s.firstWeek ∧
-      s.epoch ≤ s'.epoch) : Eff s s' := by
-  obtain ⟨f1, f2, f3, f4, f5, f6, f7, f8, f9, f10, f11, f12, f13, f14⟩ := h
-  refine ⟨0, 0, 0, 0, 0, 0, Or.inl ⟨rfl, rfl⟩, Nat.le_refl _, ?_⟩
-  rw [f1, f2, f3, f4, f5, f6, f7, f8, f9, f10, f11, f12, f13]
+      s'.rps = s.rps ∧ s'.dsc = s.dsc ∧ (s'.lastBlock = s.lastBlock ∨ s'.lastBlock = s.block) ∧
+      s.epoch ≤ s'.epoch ∧ s.block ≤ s'.block) : Eff s s' := by
+  obtain ⟨f1, f2, f3, f4, f5, f6, f7, f8, f9, f10, f11, f12, f13, f14, f15, f16, f17, f18⟩ := h
+  refine ⟨0, 0, 0, 0, 0, 0, 0, Or.inl ⟨rfl, rfl, rfl, f16⟩, Nat.le_refl _, ?_⟩
+  rw [f1, f2, f3, f4, f5, f6, f7, f8, f9, f10, f11, f12, f13, f14, f15]
   and_intros <;> first | trivial | omega | exact id | exact Or.inl trivial
 
 theorem stepCore_eff {s s' : St} {op : Op} {o : Out} (h : stepCore s op = some (s', o)) : Eff s s' := by
